@@ -3,5 +3,5 @@
    parse_tokens (stream_toks ds) = stream_events keep ds can be TESTED on generated layout trees.  ExtrOcamlBasic only. *)
 From Coq Require Import List NArith ZArith Bool.
 From Coq Require Import ExtrOcamlBasic.
-Require Import Parser SBase SPrim SDir SScalar SFetch Pipe Drivers TokenGrammar FlowText.
-Extraction "model.ml" tokens_of pre_events number bound env0 events_of wf wf_root wrap wrap_events parse_tokens stream_toks stream_events docs_wf docs_bound render doc_text lt fwf depth is_coll.
+Require Import Parser SBase SPrim SDir SScalar SFetch Pipe Drivers TokenGrammar FlowText BlockText.
+Extraction "model.ml" tokens_of pre_events number bound env0 events_of wf wf_root wrap wrap_events parse_tokens stream_toks stream_events docs_wf docs_bound render doc_text lt fwf fgram depth is_coll bdoc_text blt bwf_root bdepth.
